@@ -904,6 +904,16 @@ pub fn run(prop: &'static str, ctx: &mut Ctx) {
     let sizes: Vec<usize> = tier.pick(vec![9, 17, 33, 65, 130, 300, 1100], vec![9, 17, 33, 65, 129, 130, 260, 520, 1030, 2300, 4200]);
     let mut bigs: Vec<(GCase, Key, Key)> = vec![];
     big_family(&sizes, |g, r, t| bigs.push((g.clone(), r, t)));
+    // deep chains (recursion depth of the recursive traversals, thresholds in the thousands): a path with one skip
+    // edge at the start and one back edge near the end; plain cells search 0 -> n-1, transposed ones n-1 -> 0
+    let deep_sizes: Vec<usize> = tier.pick(vec![5000], vec![5000, 9000, 20_000, 60_000]);
+    for &n in &deep_sizes {
+        let mut e: Vec<Tri> = (0..n - 1).map(|i| (i as Key, (i + 1) as Key, 7 + (i % 3) as EV)).collect();
+        e.push((0, 2, 1));
+        e.push(((n - 1) as Key, (n - 5) as Key, 2));
+        bigs.push((GCase { n, prio: (0..n).map(|i| ((i * 7) % 5) as i32).collect(), edges: e }, 0, (n - 1) as Key));
+    }
+    ctx.stats.extra.insert("deep_chain_sizes".into(), json!(deep_sizes));
     let big = parallel(workers.min(bigs.len().max(1)), |w| {
         let mut st = Stats::new();
         for (i, (g, r, t)) in bigs.iter().enumerate() {
